@@ -777,6 +777,9 @@ func (e *Exec) step(s *State) ([]*State, bool) {
 		}
 	case *ssa.Defer:
 		fn, args := e.callee(s, f, &x.Call)
+		if cl, ok := fn.(Closure); ok && cl.Fn != nil && strings.HasPrefix(cl.Fn.String(), "github.com/cosmos/cosmos-sdk/telemetry.") {
+			break // metrics: no effect on state (same as the no-op intrinsic for a direct call)
+		}
 		f.Defers = append(f.Defers, Deferred{fn, args})
 	case *ssa.Panic:
 		v := e.get(s, f, x.X).(IfaceV)
